@@ -64,6 +64,16 @@ def plan(tier, seed):
     pf = pool_file(tier)
     rng = env.rng("C15", "firsts")
     firsts = rng.sample(range(len(p)), min(sz["firsts"], len(p)))
+    # ... and, always: the national check of every algorithm country (the last descriptor of its BBAN-level group
+    # is one with chance digits, i.e. mostly a rejected one) and one call per German method as the very first
+    # call of a process
+    by_grp: dict = {}
+    for i_, d_ in enumerate(p):
+        if d_.get("grp", "").startswith(("natb:", "algo:DE:")):
+            by_grp.setdefault(d_["grp"], []).append(i_)
+    firsts += [ids_[-1] for g_, ids_ in sorted(by_grp.items()) if g_.startswith("natb:")]
+    firsts += [ids_[0] for g_, ids_ in sorted(by_grp.items()) if g_.startswith("algo:DE:")][:: 1 if tier != "quick" else 3]
+    firsts = list(dict.fromkeys(firsts))
     per = 1 if tier == "quick" else 1
     sh += [{"kind": "first", "ids": firsts[i : i + per], "tier": tier, "_name": f"first-{firsts[i]}"} for i in range(0, len(firsts), per)]
     for i in range(2 if tier == "quick" else 12):
